@@ -262,6 +262,7 @@ def vm_load_elf(vm, fdata, name="", base_addr=0, loc_db=None, apply_reloc=False,
     """
     elf = elf_init.ELF(fdata, **kargs)
     i = interval()
+    writable = interval()
     all_data = {}
 
     for p in elf.ph.phlist:
@@ -278,10 +279,16 @@ def vm_load_elf(vm, fdata, name="", base_addr=0, loc_db=None, apply_reloc=False,
         all_data[addr_o] = data_o
         # -2: Trick to avoid merging 2 consecutive pages
         i += [(a_addr, b_addr - 2)]
+        if p.ph.flags & elf_csts.PF_W:
+            writable += [(a_addr, b_addr - 2)]
     for a, b in i.intervals:
+        access = PAGE_READ
+        if not (interval([(a, b)]) & writable).empty:
+            # At least one writable segment lives in these pages
+            access |= PAGE_WRITE
         vm.add_memory_page(
             a,
-            PAGE_READ | PAGE_WRITE,
+            access,
             b"\x00" * (b + 2 - a),
             repr(name)
         )
